@@ -86,6 +86,9 @@ for _l in (1, 2, 3, 4):
         elif _f in (0, 5):
             R('readRawValue_bcd_f%02x_len%d' % (_fl, _l), 'h_readRawValue_b2', None, unwind=5, timeout=3000,
               defines=['CASE_FLAGS=0x%x' % _fl, 'CASE_LEN=%d' % _l], props=('C05', 'C10', 'C20'), cost=1000, tier='thorough')
+        if _l >= 2 and _f in (0, 5):
+            R('writeRawValue_bcd_f%02x_len%d' % (_fl, _l), 'h_writeRawValue_b2', None, unwind=5, unwindset={'vsym_resize.0': SS_CAP + 1}, solver='kissat', timeout=3000,
+              defines=['CASE_FLAGS=0x%x' % _fl, 'CASE_LEN=%d' % _l], props=('C06', 'C10', 'C20'), cost=1000, tier='thorough')
         if _l == 1:
             R('writeRawValue_bcd_f%02x_len%d' % (_fl, _l), 'h_writeRawValue_b2', None, unwind=5, unwindset={'vsym_resize.0': SS_CAP + 1},
               defines=['CASE_FLAGS=0x%x' % _fl, 'CASE_LEN=%d' % _l], props=('C06', 'C10', 'C20'), cost=40, tier='quick' if _f in (0, 5) else 'thorough')
